@@ -448,8 +448,12 @@ pub fn run_case(case: &Value, probe: bool, progress: *mut u32) -> Vec<Value> {
     // model-independent oracles decide (type state vs kernel, wipe at release, residue at the end)
     let mut drift: Option<Value> = None;
     let mut nrel_seen = 0usize;
+    let mut result_drift = false;
+    // where the bytes of each handle were last seen (a no-access region offers no view; its pages are still judged)
+    let mut known: Vec<(usize, usize)> = vec![(0, 0); 3];
 
     for (si, st) in steps.iter().enumerate().skip(1) {
+        if result_drift { break; }
         unsafe { *progress = si as u32 };
         let op = &st["op"];
         let name = sval(op, 0);
@@ -587,10 +591,18 @@ pub fn run_case(case: &Value, probe: bool, progress: *mut u32) -> Vec<Value> {
         };
         if got_res != exp_res {
             let detail = match &outcome { Ok(Err(e)) => e.clone(), Err(p) => p.clone(), _ => String::new() };
-            fail!(format!("{} {}: result {} but the model says {}", name, if name == "ctor" { sval(op, 2) } else { "" }, got_res, exp_res),
-                  {"got": got_res, "model": exp_res, "detail": detail, "budget": budget});
-            // the real state no longer follows the model: stop this behaviour here
-            return fails;
+            if got_res == "Panic" {
+                // a panic the specification does not allow here (for Result-returning operations: never)
+                fail!(format!("{} {}: result {} but the model says {}", name, if name == "ctor" { sval(op, 2) } else { "" }, got_res, exp_res),
+                      {"got": got_res, "model": exp_res, "detail": detail, "budget": budget});
+                return fails;
+            }
+            // Ok where the model expects Err or the reverse (or no panic where the model expects one): the code decides
+            // differently from the specification's kernel/allocator model - not by itself a broken property.  The behaviour
+            // ends here (the real state no longer follows the model) and is judged by the model-independent oracles on what
+            // exists now and by the end-of-behaviour checks (wipe, unlock, no residue).
+            drift = Some(json!({"step": si, "op": op, "what": format!("{} {}: result {} but the model says {}", name, if name == "ctor" { sval(op, 2) } else { "" }, got_res, exp_res), "detail": detail, "budget": budget}));
+            result_drift = true;
         }
         // ---- observe
         let obs = &st["obs"];
@@ -652,18 +664,56 @@ pub fn run_case(case: &Value, probe: bool, progress: *mut u32) -> Vec<Value> {
                     let got = page_code(&maps, lo + pi * pg);
                     if got == 99 && !live { continue; } // returned to the OS
                     if got != want {
+                        // The model's page table is implementation-shaped (how many pages a block spans, where the page after
+                        // the data sits).  A difference is not by itself a broken property: from here on the model is no longer
+                        // consulted for this behaviour, and the model-independent oracles below decide - every page that holds
+                        // bytes of a live region against its type state, the guard page before the data, a guard page within
+                        // one page after the allocation, fault probes on the data, wiping at release, residue at the end.
                         let which = if pi == 0 { "guard page before".to_string() } else if pi == pages.len() - 1 { "guard page after".to_string() } else { format!("data page {}", pi) };
                         let lenclass = len_class(obs, ai + 1, pg);
-                        fail!(format!("page state differs: {} {} (region {}) after {}", which, if live { "of a live region" } else { "of a released block" }, lenclass, name),
-                              {"alloc": ai + 1, "page": pi, "got": got, "model": want, "cap": cap, "codes": "0 rw,1 r,2 none,+4 locked,99 unmapped"});
+                        drift = Some(json!({"step": si, "op": op, "what": format!("page table differs from the model: {} {} (region {})", which, if live { "of a live region" } else { "of a released block" }, lenclass),
+                                            "alloc": ai + 1, "page": pi, "got": got, "model": want, "cap": cap, "codes": "0 rw,1 r,2 none,+4 locked,99 unmapped"}));
+                        break;
                     }
                 }
+                if drift.is_some() { break; }
             }
         }
         // C14, model-independent: every page holding the bytes of a live region agrees with its type
         for hh in 1..=2usize {
+            match &slots[hh].reg {
+                None => known[hh] = (0, 0),
+                Some(r) => if let Some(v) = r.view() { known[hh] = (v.as_ptr() as usize, v.len()); },
+            }
+        }
+        for hh in 1..=2usize {
             if let Some(r) = &slots[hh].reg {
                 let (w, pm, lm) = r.state();
+                if pm == "NA" && w != "Plain" {
+                    // no view: the bytes are where they were last seen (transitions do not move them), if that block is still live
+                    let (ptr, len) = known[hh];
+                    let still_live = ptr != 0 && len > 0 && al.iter().filter(|(a, _)| *a == ptr).count() > rl.iter().filter(|x| x.0 == ptr).count();
+                    if still_live {
+                        let want = 2 + (if lm == "Locked" { 4 } else { 0 });
+                        for k in 0..((len + pg - 1) / pg) {
+                            let got = page_code(&maps, ptr + k * pg);
+                            if got != want {
+                                fail!(format!("type state vs kernel: data page {} of a no-access region is not what the type says after {}", k + 1, name),
+                                      {"handle": hh, "type": [w, pm, lm], "got": got, "want": want, "len": len});
+                            }
+                        }
+                        if probe && probed.insert((9000 + (len % pg) as u64, len, false)) {
+                            for (a, what) in [(ptr, "first data byte"), (ptr + len - 1, "last data byte")] {
+                                for write in [false, true] {
+                                    if !probe_fault(a, write) {
+                                        fail!(format!("{} of {}: does not fault although the type state says it must fault", if write { "write" } else { "read" }, what), {"len": len, "type": [w, pm, lm]});
+                                    }
+                                }
+                            }
+                        }
+                    }
+                    continue;
+                }
                 if let Some(v) = r.view() {
                     if v.is_empty() { continue; }
                     let ptr = v.as_ptr() as usize;
@@ -730,6 +780,31 @@ pub fn run_case(case: &Value, probe: bool, progress: *mut u32) -> Vec<Value> {
                     }
                 }
                 _ => { fail!("HARNESS: handle liveness differs from the model", {"handle": hh}); return fails; }
+            }
+        }
+        // ---- fault probes without the model (drift mode): what the TYPE says must be what an access to the data experiences
+        if probe && drift.is_some() {
+            for hh in 1..=2usize {
+                if let Some(r) = &slots[hh].reg {
+                    let (w, pm, _lm) = r.state();
+                    if let Some(v) = r.view() {
+                        if v.is_empty() { continue; }
+                        let ptr = v.as_ptr() as usize;
+                        let code: u64 = if w == "Plain" || pm == "RW" { 0 } else { 1 };
+                        for (a, c, what) in [(ptr - 1, 2u64, "last byte of the guard page before"), (ptr, code, "first data byte"), (ptr + v.len() - 1, code, "last data byte")] {
+                            for write in [false, true] {
+                                if !probed.insert((7000 + c * 100 + (a % pg == 0) as u64 + 2 * ((a + 1) % pg == 0) as u64, v.len() % pg, write)) { continue; }
+                                let want_fault = match c { 0 => false, 1 => write, _ => true };
+                                let got = probe_fault(a, write);
+                                if got != want_fault {
+                                    fail!(format!("{} of {}: {} although the type state says it must{}", if write { "write" } else { "read" }, what,
+                                                  if got { "faults" } else { "does not fault" }, if want_fault { " fault" } else { " not" }),
+                                          {"len": v.len(), "type": [w, pm]});
+                                }
+                            }
+                        }
+                    }
+                }
             }
         }
         // ---- fault probes: what the page table says must be what an access experiences
